@@ -154,6 +154,8 @@ func loadKnown() []knownFinding {
 func main() {
 	checkFile := flag.String("check", "", "check configuration (checks/Cxx.json)")
 	tier := flag.String("tier", "quick", "quick|thorough")
+	tierOnly := flag.Bool("tieronly", false, "development: run only the harnesses that name this tier explicitly")
+	capS := flag.Int("cap", 0, "development: upper limit in seconds for every harness budget")
 	only := flag.String("only", "", "run only harnesses whose name contains this")
 	nworkers := flag.Int("j", 0, "workers (default: min(16,NumCPU))")
 	noReplay := flag.Bool("noreplay", false, "skip native replay (development only; exit code 3)")
@@ -211,6 +213,12 @@ func main() {
 		h.defaults()
 		if h.Tier != "" && h.Tier != *tier {
 			continue
+		}
+		if *tierOnly && h.Tier != *tier {
+			continue
+		}
+		if *capS > 0 && (h.TimeoutS == 0 || h.TimeoutS > *capS) {
+			h.TimeoutS = *capS
 		}
 		if *only != "" && !strings.Contains(h.Name, *only) {
 			continue
